@@ -30,9 +30,13 @@ import numpy as np
 from harness import core
 from harness.core import Prop, outcome, orat, unrat
 
+if hasattr(sys, "set_int_max_str_digits"):
+    # exact sums over a long table with levels and responses decades apart have numerators of several thousand digits
+    sys.set_int_max_str_digits(1_000_000)
+
 BUILTIN = ["Equal", "x", "1/x", "1/(x^2)", "y", "1/y", "1/(y^2)"]
 TOL = 1e-9          # relative tolerance on gradient/intercept (in the column-scaled norm) and r²
-RHO_MIN = 1e-6      # conditioning guard: D/(Sw*Swxx) below this => undetermined
+RHO_MIN = 1e-18     # conditioning guard: D/(Sw*Swxx) below this => undetermined (above it the perturbation bound decides)
 COV_MARGIN_MIN = 1e-12  # 1 - Σw²/(Σw)² below this => r² not compared (np.cov's normalisation cancels)
 LADDERS = [
     [0, 1, 2, 5, 10], [0, 0.1, 0.5, 1, 5, 10, 50], [0, 10, 20, 50, 100, 200, 500],
@@ -105,14 +109,84 @@ def is_nan_row(r):
     return r[0] is None or r[1] is None
 
 
-def run_fit(rows, weighting, cw, prior=False):
+TABLE_FORMS = ["list", "tuple", "int-list", "f4", ">f8", "fortran", "strided", "reversed", "readonly"]
+TABLE_INT_FORMS = ["|i1", "|u1"] + [o + b for b in ("i2", "i4", "i8", "u2", "u4", "u8") for o in "<>"]
+
+
+def table_as(rows, cw, form):
+    """the same points table (and custom weight vector) as another kind of object `from_points` accepts: nested lists /
+    tuples of Python numbers, integer arrays of any width and byte order (tables of levels and raw counts), binary32,
+    big-endian, Fortran-ordered, strided, reversed, read-only arrays.  None when the values do not fit the form exactly
+    (the variant is then skipped): decided here, for any case a shrinker derives."""
+    cells = [v for r in rows for v in r]
+    wvals = [] if cw is None else list(cw)
+    integral = lambda vs: all(v is not None and float(v) == int(float(v)) and abs(float(v)) < 2.0 ** 63 for v in vs)
+    pts64 = np.array([[nan(x), nan(y)] for x, y in rows], dtype=np.float64).reshape(-1, 2)
+    w64 = None if cw is None else np.array([nan(w) for w in cw], dtype=np.float64)
+    if form == "list":
+        if not rows:  # an empty list is not a table of shape (n, 2)
+            return None
+        return [[nan(x), nan(y)] for x, y in rows], None if cw is None else [nan(w) for w in cw]
+    if form == "tuple":
+        if not rows:
+            return None
+        return tuple((nan(x), nan(y)) for x, y in rows), None if cw is None else tuple(nan(w) for w in cw)
+    pyint = lambda v: math.nan if v is None else (int(v) if float(v) == int(float(v)) and abs(float(v)) < 2.0 ** 63 else float(v))
+    if form == "int-list":
+        if not rows or not any(isinstance(pyint(v), int) for v in cells):
+            return None
+        return [[pyint(x), pyint(y)] for x, y in rows], None if cw is None else [pyint(w) for w in cw]
+    if form == "f4":
+        f = pts64.astype(np.float32)
+        if not rows or not np.array_equal(f.astype(np.float64), pts64, equal_nan=True):
+            return None
+        return f, w64
+    if form == ">f8":
+        return pts64.astype(">f8"), None if w64 is None else w64.astype(">f8")
+    if form == "fortran":
+        return np.asfortranarray(pts64), w64
+    if form == "strided":
+        wide = np.full((len(rows), 5), 7.0)
+        wide[:, 1::2] = pts64
+        ww = None
+        if w64 is not None:
+            ww = np.full(2 * len(w64) + 1, 7.0)
+            ww[1::2] = w64
+            ww = ww[1::2]
+        return wide[:, 1::2], ww
+    if form == "reversed":
+        return pts64[::-1].copy()[::-1], None if w64 is None else w64[::-1].copy()[::-1]
+    if form == "readonly":
+        a = pts64.copy()
+        a.flags.writeable = False
+        return a, w64
+    dt = parse_dtype(form)
+    if dt is not None and dt.kind in "iu":
+        info = np.iinfo(dt)
+        if not rows or not integral(cells) or not all(info.min <= int(float(v)) <= info.max for v in cells):
+            return None
+        t = np.array([[int(float(x)), int(float(y))] for x, y in rows], dtype=dt).reshape(-1, 2)
+        if cw is not None and integral(wvals) and all(info.min <= int(float(v)) <= info.max for v in wvals):
+            return t, np.array([int(float(v)) for v in wvals], dtype=dt)
+        return t, w64
+    return None
+
+
+CALL_FORMS = ["keywords", "unit-keyword", "positional", "constructor-then-update"]
+
+
+def run_fit(rows, weighting, cw, prior=False, table=None, call="keywords"):
     """real pewlib on one variant; observation points: gradient, intercept, rsq, error, weights.
     prior=True: the same fit reached through a history - an object that already holds a (non-identity) line and fit
-    statistics gets these points and weights assigned and is refitted with update_linreg()."""
+    statistics gets these points and weights assigned and is refitted with update_linreg().
+    table: (points object, weights object) from `table_as` instead of the binary64 arrays."""
     from pewlib.calibration import Calibration
 
     pts = np.array([[nan(x), nan(y)] for x, y in rows], dtype=np.float64).reshape(-1, 2)
     wts = weighting if cw is None else (weighting, np.array([nan(w) for w in cw], dtype=np.float64))
+    if table is not None:
+        pts = table[0]
+        wts = weighting if cw is None else (weighting, table[1])
     with warnings.catch_warnings():
         warnings.simplefilter("ignore")
         with np.errstate(all="ignore"):
@@ -122,6 +196,13 @@ def run_fit(rows, weighting, cw, prior=False):
                                       points=np.array([[1.0, 2.0], [2.0, 5.0], [4.0, 7.0]]), weights="Equal")
                     cal.points = pts
                     cal.weights = wts
+                    cal.update_linreg()
+                elif call == "unit-keyword":
+                    cal = Calibration.from_points(pts, unit="ppm", weights=wts)
+                elif call == "positional":
+                    cal = Calibration.from_points(pts, "ng/g", wts)
+                elif call == "constructor-then-update":
+                    cal = Calibration(points=pts, weights=wts, unit="ppb")
                     cal.update_linreg()
                 else:
                     cal = Calibration.from_points(pts, weights=wts)
@@ -150,61 +231,117 @@ def np_weights(weighting, cw):
 
 
 # ---------------------------------------------------------------------------------------------- histories
-# A history is {"ops": [op, ...], "final": "pw" | "wp" | "p" | "w"}.  ops (the prefix, NOT judged):
+# A history is {"ops": [op, ...], "final": "<letters>"}.  ops (the prefix, NOT judged):
 #   {"op": "new", "rows": rows | "case", "weighting": str | "case", "cw": list | None, "fit": bool}
 #        fit=True: Calibration.from_points, fit=False: the constructor with a stored line and statistics
 #   {"op": "points", "rows": rows | "case"}         cal.points = ...
 #   {"op": "weights", "weighting": str | "case", "cw": list | None}    cal.weights = ...
 #   {"op": "fit"}                                   cal.update_linreg()
-# "case" stands for the case's own rows / its weighting together with its custom vector.  final (judged): the
-# case's points and weighting are assigned through the setters in the given order ("p"/"w": only that one, the
-# other already holds the case's value) and update_linreg() is called.
-FINALS = ("pw", "wp", "p", "w")
+#   {"op": "roundtrip", "pad": k | None}            cal = Calibration.from_array(cal.to_array(size = n + k | None))
+# "case" stands for the case's own rows / its weighting together with its custom vector.  final (judged): the case's
+# points and weighting are brought onto the object, one letter per step, then update_linreg() is called:
+#   p  cal.points = <case points>                 P  cal.points[...] = <case points>   (edited in place, same length)
+#   w  cal.weights = <case weighting / vector>    W  cal.weights[...] = <case vector>  (custom vector edited in place)
+#   N  cal.weighting = <case weighting>           (the public attribute assigned directly; built-in names only)
+#   f  cal.update_linreg()                        (an extra refit in between, or twice at the end)
+# A history is legal for a case when every step is a legal use of the public interface at the time it is taken and the
+# object holds the case's points and weighting at the end.
+FINAL_LETTERS = "pwPWNf"
+
+
+class _HState:
+    """what a Calibration object holds, as far as the legality of the next step depends on it"""
+
+    def __init__(self):
+        self.rows = self.w = self.cw = None
+
+    def set_points(self, r):
+        if any(len(x) != 2 for x in r):
+            return False
+        self.rows = r
+        return True
+
+    def set_weights(self, w, c):
+        if c is None and w not in BUILTIN:
+            return False
+        if c is not None and (len(c) != len(self.rows) or w in BUILTIN):
+            return False
+        self.w, self.cw = w, c
+        return True
+
+    def can_fit(self):
+        return self.w in BUILTIN or (self.cw is not None and len(self.cw) == len(self.rows))
+
+    def holds(self, rows, weighting, cw):
+        return self.rows == rows and self.w == weighting and (weighting in BUILTIN or self.cw == cw)
 
 
 def resolve_history(h, rows, weighting, cw):
     """-> (resolved ops, final) or None when the history is not a legal use of the public interface for THIS case
-    (custom vector of another length than the points at the time it is assigned or used, a "p"/"w" ending whose
-    other half does not already hold the case's value, malformed).  Decided here, for any case a shrinker derives."""
+    (custom vector of another length than the points at the time it is assigned or used, an in-place edit of a table of
+    another length, an ending that does not leave the case's points and weighting on the object, malformed).  Decided
+    here, for any case a shrinker derives."""
     try:
         final = h["final"]
-        if final not in FINALS or not h["ops"] or h["ops"][0]["op"] != "new":
+        if not isinstance(final, str) or len(final) > 5 or any(ch not in FINAL_LETTERS for ch in final):
             return None
-        st_rows = st_w = st_cw = None
+        if not h["ops"] or h["ops"][0]["op"] != "new":
+            return None
+        st = _HState()
         out = []
         for k, op in enumerate(h["ops"]):
             kind = op["op"]
             if kind == "new" and k > 0:
                 return None
             if kind in ("new", "points"):
-                r = rows if op["rows"] == "case" else op["rows"]
-                if any(len(x) != 2 for x in r):
+                if not st.set_points(rows if op["rows"] == "case" else op["rows"]):
                     return None
-                st_rows = r
             if kind in ("new", "weights"):
                 w, c = (weighting, cw) if op["weighting"] == "case" else (op["weighting"], op["cw"])
-                if c is None and w not in BUILTIN:
+                if not st.set_weights(w, c):
                     return None
-                if c is not None and (len(c) != len(st_rows) or w in BUILTIN):
-                    return None
-                st_w, st_cw = w, c
             if kind == "new":
-                out.append(("new", st_rows, st_w, st_cw, bool(op["fit"])))
+                out.append(("new", st.rows, st.w, st.cw, bool(op["fit"])))
             elif kind == "points":
-                out.append(("points", st_rows))
+                out.append(("points", st.rows))
             elif kind == "weights":
-                out.append(("weights", st_w, st_cw))
+                out.append(("weights", st.w, st.cw))
             elif kind == "fit":
-                if st_cw is not None and len(st_cw) != len(st_rows):
+                if not st.can_fit():
                     return None
                 out.append(("fit",))
+            elif kind == "roundtrip":
+                pad = op["pad"]
+                # rows that are NaN in both cells may be dropped by from_array (with their weights): not produced here
+                if not st.can_fit() or any(r[0] is None and r[1] is None for r in st.rows) or \
+                        not (pad is None or (isinstance(pad, int) and 0 <= pad <= 8)):
+                    return None
+                if st.w in BUILTIN:
+                    st.cw = None  # from_array hands a built-in weighting over by its name
+                out.append(("roundtrip", pad))
             else:
                 return None
-        if final == "wp" and cw is not None and len(cw) != len(st_rows):
-            return None
-        if final == "p" and not (st_w == weighting and st_cw == cw):
-            return None
-        if final == "w" and st_rows != rows:
+        for ch in final:
+            if ch == "p":
+                st.set_points(rows)
+            elif ch == "P":
+                if len(st.rows) != len(rows):
+                    return None
+                st.rows = rows
+            elif ch == "w":
+                if not st.set_weights(weighting, cw):
+                    return None
+            elif ch == "W":
+                if cw is None or st.w != weighting or st.w in BUILTIN or st.cw is None or len(st.cw) != len(cw):
+                    return None
+                st.cw = cw
+            elif ch == "N":
+                if weighting not in BUILTIN:
+                    return None
+                st.w = weighting
+            elif not st.can_fit():  # "f"
+                return None
+        if not st.holds(rows, weighting, cw) or not st.can_fit():
             return None
         return out, final
     except (KeyError, TypeError, IndexError):
@@ -212,8 +349,18 @@ def resolve_history(h, rows, weighting, cw):
 
 
 def history_features(ops, final, rows, weighting, cw):
-    f = {"hist-final:" + {"pw": "points-then-weights", "wp": "weights-then-points", "p": "points-only",
-                          "w": "weights-only"}[final]}
+    names = {"pw": "points-then-weights", "wp": "weights-then-points", "p": "points-only", "w": "weights-only", "": "nothing"}
+    f = {"hist-final:" + names.get(final, final)}
+    if "P" in final:
+        f.add("hist:points-edited-in-place")
+    if "W" in final:
+        f.add("hist:custom-weights-edited-in-place")
+    if "N" in final:
+        f.add("hist:weighting-attribute-assigned")
+    if "f" in final:
+        f.add("hist:extra-refit")
+    if any(o[0] == "roundtrip" for o in ops):
+        f.add("hist:to_array/from_array-round-trip" + ("(padded)" if any(o[0] == "roundtrip" and o[1] for o in ops) else ""))
     new = ops[0]
     if new[3] is not None:
         same = len(new[3]) == len(rows)
@@ -226,7 +373,7 @@ def history_features(ops, final, rows, weighting, cw):
         f.add("hist:prior-other-points")
     f.add("hist:prior-fitted" if new[4] else "hist:prior-constructed")
     seq = [new[3] is not None] + [o[2] is not None for o in ops[1:] if o[0] == "weights"]
-    if final != "p":
+    if "w" in final or "W" in final:
         seq.append(cw is not None)
     seq = [k for k, _ in itertools.groupby(seq)]
     for i in range(len(seq) - 2):
@@ -258,6 +405,9 @@ def run_history(ops, final, rows, weighting, cw):
                         cal.points = np_points(op[1])
                     elif op[0] == "weights":
                         cal.weights = np_weights(op[1], op[2])
+                    elif op[0] == "roundtrip":
+                        n = cal.points.shape[0]
+                        cal = Calibration.from_array(cal.to_array(None if op[1] is None else n + op[1]))
                     else:
                         cal.update_linreg()
             except Exception:
@@ -266,8 +416,22 @@ def run_history(ops, final, rows, weighting, cw):
                 for step in final:
                     if step == "p":
                         cal.points = np_points(rows)
-                    else:
+                    elif step == "P":
+                        cal.points[...] = np_points(rows)
+                    elif step == "w":
                         cal.weights = np_weights(weighting, cw)
+                    elif step == "W":
+                        cal.weights[...] = np.array([nan(v) for v in cw], dtype=np.float64)
+                    elif step == "N":
+                        cal.weighting = weighting
+                    else:
+                        cal.update_linreg()
+                if any(op[0] == "roundtrip" for op in ops):
+                    # to_array / from_array are not what is judged: go on only if the object that came back holds the
+                    # case's tables
+                    if cal.weighting != weighting or not np.array_equal(cal.points, np_points(rows), equal_nan=True) or \
+                            (cw is not None and not np.array_equal(cal.weights, np_weights(weighting, cw)[1], equal_nan=True)):
+                        return None
                 cal.update_linreg()
                 return observe(cal)
             except Exception as e:
@@ -349,10 +513,38 @@ def make_histories(rng, rows, weighting, cw):
         if rng.random() < 0.5:
             ops.append({"op": "fit"})
     hs.append({"ops": ops, "final": rng.choice((["w"] if ops[0]["rows"] == "case" else []) + ["pw", "wp"])})
+    # (e) the points table edited in place (cal.points[...] = ...): other points of the same length under the case's
+    #     weighting, or under another one (then the weighting is assigned before or after the edit)
+    pr = prior_rows(rng, n)
+    if cw is not None:
+        pr = [[r[0], None] if cw[i] is None else r for i, r in enumerate(pr)]
+    hs.append({"ops": [new(pr, "case")], "final": rng.choice(["P", "P", "Pf"])})
+    hs.append({"ops": [new(prior_rows(rng, n), other_b())], "final": rng.choice(["Pw", "wP"] if cw is None else ["Pw"])})
+    if cw is not None:
+        # (f) the custom vector edited in place under the same name
+        hs.append({"ops": [new("case", weighting, prior_cw(rng, n))], "final": rng.choice(["W", "W", "fW"])})
+    else:
+        # (g) the public attribute `weighting` assigned directly, after another built-in and after a custom vector
+        hs.append({"ops": [new("case", other_b())], "final": rng.choice(["N", "fN", "pN", "Np"])})
+        hs.append({"ops": [new("case", "Custom", prior_cw(rng, n))], "final": rng.choice(["N", "fN"])})
+    # (h) an extra refit between the two assignments (legal when the object is consistent in between) / twice at the end
+    hs.append({"ops": [new(prior_rows(rng, rng.choice([n, other_n()])), other_b())], "final": rng.choice(["pfw", "pwf", "wfp"] if cw is None else ["pfw", "pwf"])})
+    # (i) an object that came back from to_array / from_array (as stored in a laser file): refitted as it is, and given
+    #     the case's points and weighting
+    hs.append({"ops": [new("case", "case", cw, fit=rng.random() < 0.7), {"op": "roundtrip", "pad": rng.choice([None, 0, 1, 3])}], "final": ""})
+    hs.append({"ops": [new(prior_rows(rng, rng.choice([n, other_n()])), rng.choice(BUILTIN)),
+                       {"op": "roundtrip", "pad": rng.choice([None, 2])}], "final": rng.choice(["pw", "wp"] if cw is None else ["pw"])})
     return hs
 
 
 def drv_fit(ctx, rows, weighting, cw):
+    rep = _drv_fit(ctx, rows, weighting, cw)
+    if not rep["mech_pts_are_spec_pts"]:
+        raise core.InternalError("driver: the mechanism's points and weights differ from the specified ones (contradicts fitPts_eq_specPts / NanInsert.usable_eq)")
+    return rep
+
+
+def _drv_fit(ctx, rows, weighting, cw):
     return ctx.driver.call(
         "c06.fit", weighting=weighting, custom=cw is not None,
         rows=[[orat(nan(x)), orat(nan(y)), None if cw is None else orat(nan(cw[i]))] for i, (x, y) in enumerate(rows)])
@@ -464,6 +656,184 @@ def judge_calibrate(impl, model, spec, shape, resp, g, c):
     return m_ok, s_ok
 
 
+# ---------------------------------------------------------------------------------------------- data arrays of any dtype
+# `calibrate` is handed whatever array an image comes in: raw detector counts (signed / unsigned integers of every
+# width), binary32 and binary64, either byte order, any number of dimensions, any memory layout.  A data case gives the
+# array's elements directly ("data": integers for the integer dtypes, floats / None = NaN for the float dtypes); every
+# element lies on the line at exactly one concentration, (r - c) / g (`calibrate_eq_iff_on_line`), which the driver
+# computes over Rat from the exact value the dtype holds ("c06.calibrate_data").
+INT_DTYPES = ["i1", "i2", "i4", "i8", "u1", "u2", "u4", "u8"]
+DATA_DTYPES = INT_DTYPES + ["f4", "f8"]
+LAYOUTS = ["c", "f", "strided", "reversed", "transposed", "field", "readonly", "offset", "scalar", "pyscalar"]
+F4_MAX = 1e30   # binary32 arithmetic is judged only where nothing can overflow: |g|, |c|, |r|, |x| <= 1e30, |g| >= 1e-30
+
+
+def parse_dtype(name):
+    """'<i4', '>f8', 'u1' ... -> np.dtype, or None for anything that is not one of the image dtypes"""
+    if not isinstance(name, str) or len(name) < 2:
+        return None
+    order, base = (name[0], name[1:]) if name[0] in "<>=|" else ("=", name)
+    if base not in DATA_DTYPES:
+        return None
+    return np.dtype(base).newbyteorder(order if order in "<>" else "=")
+
+
+def dtype_values(data, dt):
+    """the case's elements as the dtype holds them: integers clamped to the dtype's range (None -> 0), floats rounded to
+    the dtype (None -> NaN); a plain Python list of ints / floats"""
+    out = []
+    if dt.kind in "iu":
+        info = np.iinfo(dt)
+        for v in data:
+            k = 0 if v is None or v != v or v in (math.inf, -math.inf) else int(round(v))
+            out.append(min(max(k, int(info.min)), int(info.max)))
+    else:
+        for v in data:
+            out.append(math.nan if v is None else float(v))
+    return out
+
+
+def lay_out(a, layout):
+    """the same logical array (shape, dtype, values) in another memory layout"""
+    dt, shape = a.dtype, a.shape
+    if layout == "f":
+        return a.copy(order="F")
+    if layout == "strided":  # every other element of a wider buffer
+        if a.ndim == 0:
+            base = np.zeros(3, dt)
+            base[1] = a
+            return base[1:2].reshape(())
+        base = np.zeros(shape[:-1] + (2 * shape[-1] + 1,), dt)
+        base[..., 1::2] = a
+        return base[..., 1::2]
+    if layout == "reversed" and a.ndim >= 1:  # negative stride
+        return a[::-1].copy()[::-1]
+    if layout == "transposed" and a.ndim >= 2:
+        return a.T.copy(order="C").T
+    if layout == "field":  # a field of a packed structured array (unaligned for every dtype wider than a byte)
+        st = np.dtype({"names": ["pad", "v"], "formats": ["u1", dt], "offsets": [0, 1], "itemsize": 1 + dt.itemsize})
+        base = np.zeros(shape, st)
+        base["v"] = a
+        return base["v"]
+    if layout == "readonly":
+        b = a.copy()
+        b.flags.writeable = False
+        return b
+    if layout == "offset":  # a view into a byte buffer, one byte off alignment
+        buf = np.zeros(a.size * dt.itemsize + 1, "u1")
+        v = buf[1:].view(dt).reshape(shape)
+        v[...] = a
+        return v
+    if layout == "scalar" and a.ndim == 0:  # what indexing an image returns: a NumPy scalar, not an array
+        return a[()]
+    if layout == "pyscalar" and a.ndim == 0:  # ... and what `.item()` / `float()` of it returns: a Python number
+        return a.item()
+    return a.copy(order="C")
+
+
+def build_data(case):
+    """-> (dtype, argument for calibrate, its elements as exact Python numbers in C order) or None (malformed case)"""
+    dt = parse_dtype(case.get("dtype"))
+    shape, data, layout = case.get("shape"), case.get("data"), case.get("layout", "c")
+    if dt is None or not isinstance(data, list) or not isinstance(shape, list) or layout not in LAYOUTS:
+        return None
+    if any(not (v is None or isinstance(v, (int, float))) or isinstance(v, bool) for v in data):
+        return None
+    if any(not isinstance(k, int) or k < 0 for k in shape) or (int(np.prod(shape)) if shape else 1) != len(data):
+        return None
+    vals = dtype_values(data, dt)
+    a = np.array(vals, dtype=dt).reshape(shape)
+    arg = lay_out(a, layout)
+    same_dtype = np.asarray(arg).dtype == dt or (layout == "scalar" and np.asarray(arg).dtype == dt.newbyteorder("=")) \
+        or (layout == "pyscalar" and not shape)
+    if np.shape(arg) != tuple(shape) or not same_dtype or not np.array_equal(np.asarray(arg), a, equal_nan=True):
+        raise core.InternalError(f"layout {layout} changed the array")
+    exact = vals if dt.kind in "iu" else a.ravel().astype(np.float64).tolist()
+    return dt, arg, exact
+
+
+def same_value(a, b):
+    """exact equality of two array elements (Python int / float): NaN with NaN, zeros with their sign between floats"""
+    fa, fb = isinstance(a, float), isinstance(b, float)
+    if (fa and a != a) or (fb and b != b):
+        return fa and fb and a != a and b != b
+    if fa and fb and a == 0.0 and b == 0.0:
+        return math.copysign(1.0, a) == math.copysign(1.0, b)
+    if (fa and math.isinf(a)) or (fb and math.isinf(b)):
+        return fa and fb and a == b
+    return Fraction(a) == Fraction(b)
+
+
+def exact_elements(out):
+    """elements of a returned array as exact Python numbers (ints, or floats through binary64); None: not a real array"""
+    out = np.asarray(out)
+    if out.dtype.kind in "iub":
+        return [int(v) for v in out.ravel().tolist()]
+    if out.dtype.kind == "f" and out.dtype.itemsize <= 8:
+        return [float(v) for v in out.ravel().astype(np.float64).tolist()]
+    return None
+
+
+def observe_data(arg_exact, out):
+    """what calibrate returned for a data array: shape, dtype (recorded, never compared), the elements as floats, and
+    whether they are the argument's elements unchanged (exactly: value for value)"""
+    o = np.asarray(out)
+    el = exact_elements(o)
+    if el is None:
+        return {"shape": list(o.shape), "dtype": str(o.dtype), "unsupported-result-dtype": True}
+    return {"shape": list(o.shape), "dtype": o.dtype.str, "data": [fnum(float(v)) if not (isinstance(v, float) and math.isinf(v))
+                                                               else ("inf" if v > 0 else "-inf") for v in el],
+            "unchanged": len(el) == len(arg_exact) and all(same_value(a, b) for a, b in zip(arg_exact, el))}
+
+
+def judge_data(impl, model, spec, shape, g, c, dt, identity):
+    """a data array of dtype `dt`: the identity returns the elements unchanged (exactly); any other line returns (r - c)/g
+    at the precision of the result pewlib computes - binary64 for integer and binary64 data, binary32 for binary32 data
+    (NumPy keeps binary32 under a Python-float line): 4 eps (|x| + |c/g|) covers the conversion of wide integers, the
+    rounding of the line's parameters to the dtype, the subtraction and the division"""
+    if "data" not in impl or impl["shape"] != list(shape):
+        return False, False
+    if identity:
+        return impl["unchanged"], impl["unchanged"]
+    eps, tiny = (2.0 ** -23, 2.0 ** -149) if (dt.kind == "f" and dt.itemsize == 4) else (2.0 ** -52, 2.0 ** -1074)
+
+    def cmp(want):
+        if len(want) != len(impl["data"]):
+            return False
+        for a, b in zip(impl["data"], want):
+            if (a is None) != (b is None):
+                return False
+            if a is not None and (isinstance(a, str) or abs(a - b) > 4 * eps * (abs(b) + abs(c / g)) + tiny):
+                return False
+        return True
+
+    return cmp(model["data"]), cmp(spec["data"])
+
+
+def data_features(dt, layout, shape, exact):
+    if (layout in ("scalar", "pyscalar") and shape) or (layout == "reversed" and not shape) or \
+            (layout in ("transposed", "f") and len(shape) < 2):
+        layout = "c"  # what `lay_out` falls back to
+    f = {"data-dtype:" + dt.base.str[1:], "data-layout:" + layout, f"ndim{len(shape)}",
+         "data-byteorder:" + ("single-byte" if dt.itemsize == 1 else "big" if dt.str[0] == ">" else "little")}
+    f.add("data:integer-counts" if dt.kind in "iu" else "data:binary32" if dt.itemsize == 4 else "data:binary64")
+    if not exact:
+        f.add("empty-array")
+    if len(exact) >= 1000:
+        f.add("data:image(>=1000 elements)")
+    if dt.kind in "iu" and exact:
+        info = np.iinfo(dt)
+        if int(info.max) in exact or (dt.kind == "i" and int(info.min) in exact):
+            f.add("data:at-dtype-limit")
+        if any(abs(v) > 2 ** 53 for v in exact):
+            f.add("data:integer-beyond-2^53")
+        if any(v < 0 for v in exact):
+            f.add("data:negative-counts")
+    if dt.kind == "f" and any(v != v for v in exact):
+        f.add("nan-data")
+    return f
+
+
 class C06(Prop):
     id = "C06"
     anchored = ["src/pewlib/calibration.py"]
@@ -483,8 +853,23 @@ class C06(Prop):
             "same-unit ladder; a 7x8 grid of them on every run); sessions (6%): one object, 2..4 operations that set its "
             "line (attributes assigned: any line / next to the identity / the identity; refitted on an ordinary ladder, a "
             "same-unit ladder, fewer than two usable rows, no rows) with calibrate called before, between (once or twice) "
-            "and after. non-trivial = carries a NaN row, a zero level, a permutation, custom weights, a history, a "
-            "non-1-D array, a line at or next to the identity, or is a session; distinct by canonical case hash")
+            "and after; 35% of the sessions calibrate one image of some dtype / layout at every call. Ladders are written in "
+            "units from 1e-12 to 1e12 (a quarter of the fit cases beyond 1e-3..1e3), responses from 1e-9 to 1e12; levels that "
+            "differ by 1e-3..1e-9 of their mean; exactly two levels with up to 12 replicates; 12% tables of whole numbers. "
+            "Every fit case is also handed over as two or three other kinds of table (nested lists / tuples of Python "
+            "floats and ints, integer arrays i1..u8 of either byte order where the values are whole numbers, binary32 where "
+            "exact, big-endian, Fortran-ordered, strided, reversed, read-only), and through 16-17 histories incl. the points "
+            "or the custom vector edited in place, the public attribute `weighting` assigned directly, extra refits in "
+            "between and at the end, and an object that came back from to_array / from_array. Data cases (10%): calibrate on "
+            "arrays of every image dtype (i1 i2 i4 i8 u1 u2 u4 u8 f4 f8), either byte order, 0..3 dimensions incl. empty, "
+            "nine memory layouts (C, Fortran, every other element, reversed, transposed, field of a packed structured array, "
+            "read-only, unaligned offset, NumPy scalar), elements given directly (raw counts up to the dtype's limits, "
+            "responses between the blank and twice the top standard, NaN for the float dtypes) under the identity, lines "
+            "given as float / np.float64 / int, fitted lines (ladders measured in counts), lines next to the identity; a "
+            "deterministic grid dtype x byte order x {identity, float line, np.float64 line, fitted, fewer than two points} "
+            "on every run. non-trivial = carries a NaN row, a zero level, a permutation, custom weights, a history, a "
+            "non-1-D array, a line at or next to the identity, a data array of a given dtype, or is a session; distinct by "
+            "canonical case hash")
     trusted = [
         "np.polynomial.polynomial.polyfit(x, y, 1, w=sqrt(w)) returns the minimiser of the weighted residual sum of a "
         "full-rank system and np.cov(aweights=w) the weighted covariance matrix; the correspondence measures both "
@@ -493,6 +878,11 @@ class C06(Prop):
         "rho < 1e-6 or with that bound above 1e-5 are undetermined (counted, never a verdict)",
         "float evaluation of 1/x, 1/x**2 and of (data - intercept)/gradient is within 1e-15 relative of the exact value "
         "(plus one rounding of 2^-1074 in the subnormal range)",
+        "a data array holds each response exactly (integers of any width, binary32, binary64); its concentration is "
+        "(r - c)/g over Rat (`specCalibrate`, `calibrate_eq_iff_on_line`).  pewlib's result is compared at the precision of "
+        "the type NumPy computes in on the unchanged tree: binary64 for integer and binary64 data under any line, "
+        "binary32 for binary32 data (NumPy keeps binary32 under a Python-float line): 4 eps (|x| + |c/g|) + one subnormal "
+        "rounding; binary32 cases with any of |g|, |c|, |r|, |x| above 1e30 or |g| below 1e-30 are undetermined",
         "in a session a refit on two or more usable rows stores polyfit's line: the line observed on the object is "
         "adopted as the model's state for the following calibrate calls (the fit itself is judged by the fit cases); "
         "assigned lines and the identity after fewer than two usable rows are compared exactly",
@@ -504,6 +894,16 @@ class C06(Prop):
         "[[0, 0.0233], [1000, 8832044]] with 1/(y^2): weights 1839.7 and 1.28e-14, rsq = NaN, exact value 1)",
         "point sets whose usable rows do not have two distinct concentrations, or whose weights are not all positive, "
         "are outside the property's hypothesis; only the weights and 'does not change' are not demanded there",
+        "'an identity calibration returns data unchanged' is demanded value for value (NaN for NaN, zeros with their "
+        "sign, integers as integers or as the equal float); the dtype of the returned array and whether it is the same "
+        "object are recorded (`result-dtype:*`), never compared: the text speaks of the data",
+        "a line whose gradient or intercept is a Python int, applied to an integer array, is subtracted by NumPy in the "
+        "array's own integer type (wraps around below the blank for unsigned counts, OverflowError for an intercept "
+        "outside the dtype's range).  Lines out of a fit are np.float64 and the constructor's parameters are typed float: "
+        "outside the quantifier, such cases are recorded (`int-line-on-int-data:...(recorded only)`), not judged, when "
+        "a difference r - c leaves the dtype's range (notes/EC06.md)",
+        "to_array / from_array are not anchored by the property: an object that came back from them is used as a prior "
+        "state only (a round trip that fails or drops rows is a prefix that is not judged)",
         "`error` is not part of the property statement; it is compared (under impl-vs-model) with the mechanism's value and "
         "with its own specification - the residual variance about the textbook line written with raw sums "
         "(`specErr2`, equal to the mechanism by `err2_is_residual_variance`)",
@@ -523,9 +923,12 @@ class C06(Prop):
         if unit is None:
             unit = rng.random() < 0.08
         ladder = rng.choice(LADDERS)
-        scale = 10.0 ** rng.choice([0, 0, 0, -3, -2, -1, 1, 2, 3])
-        mode = rng.choice(["ladder"] * 8 + ["few", "same", "zeros", "close"])
+        # ordinary units, and now and then the same ladders written in SI / mass-fraction / count units (1e-12 .. 1e12)
+        scale = 10.0 ** rng.choice([0, 0, 0, -3, -2, -1, 1, 2, 3, 0, -3, -2, -1, 1, 2, 3, -12, -9, -6, 6, 9, 12])
+        mode = rng.choice(["ladder"] * 8 + ["few", "same", "zeros", "close", "close", "two-level"])
         n = rng.choice([2, 2, 3, 3, 4, 4, 5, 5, 6, 7, 8] + ([10, 12] if big else []))
+        if rng.random() < 0.03:  # a long table (replicates of every level, a whole plate of standards)
+            n = rng.choice([20, 30, 50] + ([100] if big else []))  # exact sums over 1/y^2 weights: ~1 s per evaluation at 100 rows
         if unit:
             scale, mode = rng.choice(TRACE_SCALES), "ladder"
         if mode == "few":
@@ -538,8 +941,15 @@ class C06(Prop):
         elif mode == "zeros":
             xs = [0.0] * n
         elif mode == "close":
+            # levels that differ by a small fraction of their mean (spread 1e-3 .. 1e-9 relative)
             b = rng.choice(levels[1:]) * scale
-            xs = [b * (1 + rng.choice([0, 1, 2, 3]) * 10.0 ** rng.choice([-4, -6, -9])) for _ in range(n)]
+            sp = 10.0 ** rng.choice([-3, -4, -5, -6, -7, -9])
+            xs = [b * (1 + rng.choice([0, 1, 2, 3, 3 * rng.random()]) * sp) for _ in range(n)]
+        elif mode == "two-level":
+            # exactly two distinct concentrations (the blank and one standard, or two standards), many replicates
+            n = rng.choice([2, 3, 4, 6, 8, 12])
+            lo, hi = sorted(rng.sample(levels, 2))
+            xs = [lo * scale, hi * scale] + [rng.choice([lo, hi]) * scale for _ in range(n - 2)]
         else:
             if rng.random() < 0.6 and n <= len(levels):
                 k = rng.randint(0, len(levels) - n)
@@ -549,7 +959,7 @@ class C06(Prop):
             else:
                 xs = [rng.choice(levels) for _ in range(n)]  # replicates
             xs = [float(x) * scale for x in xs]
-        g = 10.0 ** rng.uniform(-2, 6)
+        g = 10.0 ** (rng.uniform(-2, 6) if rng.random() < 0.85 else rng.uniform(-9, 12))  # counts, cps, volts, amperes ...
         c = rng.choice([0.0, 0.0, 10.0 ** rng.uniform(-1, 4), g * scale * rng.uniform(0, 2)])
         ymode = rng.choice(["noise", "noise", "noise", "exact", "scatter", "const"] if mode != "few" else ["noise"])
         if unit:
@@ -572,6 +982,11 @@ class C06(Prop):
             else:
                 y = float(round(c)) + 1.0
             ys.append(abs(y) if y != 0 else (0.0 if rng.random() < 0.3 else 1.0))
+        if not unit and mode != "close" and rng.random() < 0.12:
+            # a table of whole numbers: levels in whole units, responses in raw counts (what an integer table holds)
+            k = rng.choice([1.0, 1.0, 10.0, 100.0]) if scale < 1 else 1.0
+            xs = [float(round(x / scale * k)) if scale < 1 else float(round(x)) for x in xs]
+            ys = [float(min(round(y), 2 ** 62)) for y in ys]
         rows = [[x, y] for x, y in zip(xs, ys)]
         rng.shuffle(rows) if rng.random() < 0.5 else None
         # NaN rows
@@ -604,9 +1019,10 @@ class C06(Prop):
         elif m <= (5 if big else 4):
             perms = [list(p) for p in itertools.permutations(range(m))][1:]
         else:
-            perms = [list(reversed(range(m)))] + [rng.sample(range(m), m) for _ in range(3 if not big else 5)]
+            perms = [list(reversed(range(m)))] + [rng.sample(range(m), m) for _ in range(1 if m >= 20 else 3 if not big else 5)]
         return {"kind": "fit", "rows": rows, "weighting": weighting, "cw": cw, "perms": perms,
-                "hists": make_histories(rng, rows, weighting, cw)}
+                "hists": make_histories(rng, rows, weighting, cw),
+                "tables": rng.sample(TABLE_FORMS, 2) + [rng.choice(TABLE_INT_FORMS)]}
 
     def gen_cal(self, rng, tier):
         shape = rng.choice([[], [0], [1], [5], [2, 3], [3, 1], [0, 3], [2, 2, 2], [7], [4, 4]])
@@ -640,6 +1056,100 @@ class C06(Prop):
                            "weighting": rng.choice(BUILTIN), "cw": None}
         return case
 
+    def gen_dtype(self, rng):
+        base = rng.choice(DATA_DTYPES + ["i2", "i4", "u2", "f4"])  # the common image dtypes a little more often
+        return (rng.choice("<>") if np.dtype(base).itemsize > 1 else "|") + base
+
+    def gen_data(self, rng, dtype, size, anchors, lo, hi):
+        """`size` elements for a data array of the given dtype: responses between `lo` and `hi` (log-uniform), the
+        anchors themselves (responses of the standards, the blank), 0, the dtype's limits; NaN for the float dtypes"""
+        dt = parse_dtype(dtype)
+        out = []
+        lo = max(lo, 1e-6)
+        hi = max(hi, 2 * lo)
+        for _ in range(size):
+            r = rng.random()
+            if r < 0.25 and anchors:
+                v = rng.choice(anchors)
+            elif r < 0.33:
+                v = 0.0
+            elif r < 0.4 and dt.kind in "iu":
+                info = np.iinfo(dt)
+                v = rng.choice([int(info.max), int(info.min), int(info.max) - 1, 1, -1 if dt.kind == "i" else 2])
+            elif r < 0.45 and dt.kind == "f":
+                v = None
+            else:
+                v = math.exp(rng.uniform(math.log(lo), math.log(hi)))
+                if dt.kind == "i" and rng.random() < 0.1:
+                    v = -v
+            if dt.kind in "iu":
+                v = dtype_values([v], dt)[0]
+            elif v is not None and dt.itemsize == 4:
+                v = float(np.float32(v)) if abs(v) < 3e38 else None
+            out.append(v)
+        return out
+
+    def gen_cal_data(self, rng, tier):
+        """calibrate on an array as images come: every dtype, byte order, dimension count and memory layout"""
+        dtype = self.gen_dtype(rng)
+        dt = parse_dtype(dtype)
+        shape = rng.choice([[], [], [0], [1], [4], [6], [2, 3], [3, 1], [0, 3], [2, 2, 2], [1, 3, 2], [3, 4]])
+        if rng.random() < 0.04:  # an image rather than a handful of pixels
+            shape = rng.choice([[40, 50], [1500], [8, 16, 12]])
+        size = int(np.prod(shape)) if shape else 1
+        layout = rng.choice(LAYOUTS if shape else ["c", "scalar", "scalar", "pyscalar", "strided", "field", "readonly", "offset"])
+        kind = rng.choice(["line", "line", "line-f64", "identity", "fitted", "fitted", "few", "near", "counts-fit"])
+        top = float(np.iinfo(dt).max) if dt.kind in "iu" else 10.0 ** rng.uniform(2, 9)
+        case = {"kind": "calibrate", "mode": "line", "shape": shape, "dtype": dtype, "layout": layout}
+        if kind in ("line", "line-f64"):
+            # counts per unit and blank suited to the range of the dtype
+            g = 10.0 ** rng.uniform(-1, max(0.0, min(6.0, math.log10(top) - 1.5)))
+            c = rng.choice([0.0, rng.uniform(0, top / 16), float(rng.randint(1, 100)), -rng.uniform(0, top / 64)])
+            if rng.random() < 0.3:
+                g, c = float(max(1, round(g))), float(round(c))
+                if rng.random() < 0.4:
+                    case["ptype"] = "int"
+            if kind == "line-f64":
+                case["ptype"] = "np.float64"
+            if rng.random() < 0.08:
+                g = -g
+            case.update(g=g, c=c, data=self.gen_data(rng, dtype, size, [c, g + c, 10 * g + c], max(abs(c) / 4, abs(g) / 100), top))
+        elif kind == "near":
+            case.update(g=near_one(rng), c=near_zero(rng, 1.0), data=self.gen_data(rng, dtype, size, [1.0, 2.0], 0.5, top))
+            if rng.random() < 0.3:
+                case["ptype"] = "np.float64"
+        elif kind == "identity":
+            case.update(mode="identity", data=self.gen_data(rng, dtype, size, [1.0], 0.5, top))
+        elif kind == "few":
+            case.update(mode="few", data=self.gen_data(rng, dtype, size, [1.0], 0.5, top),
+                        fit={"rows": rng.choice([[], [[1.0, 2.0]], [[1.0, 2.0], [2.0, None]], [[None, None], [None, 1.0]]]),
+                             "weighting": rng.choice(BUILTIN), "cw": None})
+        else:
+            # a fitted calibration applied to an image whose pixels lie between the blank and the top standard
+            f = self.gen_counts_fit(rng, top) if kind == "counts-fit" or dt.kind in "iu" else self.gen_fit(rng, tier, unit=False)
+            ys = [r[1] for r in f["rows"] if r[0] is not None and r[1] is not None]
+            lo, hi = (min(ys), max(ys)) if ys else (1.0, 100.0)
+            case.update(mode="fitted", fit={"rows": f["rows"], "weighting": f["weighting"], "cw": f["cw"]},
+                        data=self.gen_data(rng, dtype, size, ys, lo / 2, min(2 * hi, top)))
+        return case
+
+    def gen_counts_fit(self, rng, top):
+        """standards measured in raw counts: integer responses below `top`, round concentration levels"""
+        ladder = rng.choice(LADDERS)
+        n = rng.randint(2, len(ladder))
+        xs = sorted(rng.sample(ladder, n))
+        if rng.random() < 0.7:
+            xs[0] = ladder[0]
+        if len(set(xs)) < 2:
+            xs = ladder[:2]
+        blank = float(rng.choice([0, rng.randint(1, 50), rng.randint(50, 2000)]))
+        blank = min(blank, top / 8)
+        g = (top * rng.uniform(0.05, 0.6) - blank) / max(xs)
+        rows = [[float(x), float(max(0, round((g * x + blank) * (1 + rng.gauss(0, rng.choice([0.0, 0.001, 0.03]))))))] for x in xs]
+        if len(rows) >= 3 and rng.random() < 0.3:
+            rows.insert(rng.randint(0, len(rows)), rng.choice([[None, 5.0], [xs[1] / 2, None], [None, None]]))
+        return {"rows": rows, "weighting": rng.choice(BUILTIN), "cw": None}
+
     def gen_session(self, rng, tier):
         """several operations on ONE object, `calibrate` called in between: the line is assigned to the public
         attributes (any line, next to the identity, the identity), refitted on other points (an ordinary ladder, a
@@ -672,11 +1182,22 @@ class C06(Prop):
                     steps.append({"op": "calibrate"})
         if steps[-1]["op"] != "calibrate":
             steps.append({"op": "calibrate"})
+        if rng.random() < 0.35:  # the same image of some dtype / layout calibrated at every call
+            dtype = self.gen_dtype(rng)
+            dt = parse_dtype(dtype)
+            top = float(np.iinfo(dt).max) if dt.kind in "iu" else 10.0 ** rng.uniform(2, 9)
+            return {"kind": "session", "shape": shape, "dtype": dtype, "start": start, "steps": steps,
+                    "layout": rng.choice(LAYOUTS if shape else ["c", "scalar", "pyscalar", "strided", "field", "offset"]),
+                    "data": self.gen_data(rng, dtype, size, [1.0, 10.0, 100.0], 0.5, top)}
         return {"kind": "session", "shape": shape, "conc": gen_conc(rng, size, scale), "start": start, "steps": steps}
 
     def generate(self, rng, tier):
         r = rng.random()
-        return self.gen_session(rng, tier) if r < 0.06 else self.gen_cal(rng, tier) if r < 0.26 else self.gen_fit(rng, tier)
+        if r < 0.06:
+            return self.gen_session(rng, tier)
+        if r < 0.16:
+            return self.gen_cal_data(rng, tier)
+        return self.gen_cal(rng, tier) if r < 0.30 else self.gen_fit(rng, tier)
 
     def targeted(self, tier):
         for i, c in enumerate(self.targeted_plain(tier)):
@@ -743,10 +1264,63 @@ class C06(Prop):
                 yield {"kind": "calibrate", "mode": "fitted", "shape": [3], "conc": [0.0, 2.5 * sc, 7.0 * sc],
                        "fit": {"rows": rows, "weighting": BUILTIN[k % len(BUILTIN)], "cw": None}}
                 yield {"kind": "fit", "rows": rows, "weighting": BUILTIN[(k + 3) % len(BUILTIN)], "cw": None, "perms": []}
+        # the same five-level ladder written in units from 1e-12 (mass fractions, mol/L) to 1e12, responses from
+        # 1e-9 (amperes) to 1e12 (counts); levels that differ by 1e-6 of their mean; two levels with replicates
+        for i, sc in enumerate([1e-12, 1e-9, 1e-6, 1e6, 1e9, 1e12]):
+            for j, rs in enumerate([1.0, 1e-9, 1e9]):
+                w = (BUILTIN + ["Custom"])[(3 * i + j) % 8]
+                yield {"kind": "fit", "rows": [[x * sc, (50.0 + 2000.0 * x + (x * x) % 7) * rs] for x in (0.0, 1.0, 2.0, 5.0, 10.0)],
+                       "weighting": w, "cw": [1.0, 2.0, 0.5, 4.0, 1.0] if w == "Custom" else None, "perms": [], "tables": [">f8"]}
+        for i, sp in enumerate([1e-3, 1e-5, 1e-6, 1e-8]):
+            for j, b in enumerate([100.0, 2.5e-9, 4e7]):
+                yield {"kind": "fit", "rows": [[b * (1 + k * sp), 50.0 + 2000.0 * k + (k * k) % 3] for k in (0, 1, 2, 3)],
+                       "weighting": BUILTIN[(2 * i + j) % 7], "cw": None, "perms": []}
+        for i, w in enumerate(BUILTIN + ["Custom"]):
+            lo, hi = [(0.0, 5.0), (1.0, 10.0), (0.0, 1e-9)][i % 3]
+            rows = [[lo, 3.0], [hi, 500.0], [lo, 5.0], [hi, 520.0], [hi, 480.0], [lo, 4.0], [lo, 3.5], [hi, 505.0]]
+            yield {"kind": "fit", "rows": rows, "weighting": w, "cw": [1.0, 2.0, 0.5, 4.0, 1.0, 3.0, 1.0, 2.0] if w == "Custom" else None,
+                   "perms": [list(reversed(range(8)))]}
+        # tables of whole numbers (levels in whole units, responses in raw counts) handed over as integer arrays of every
+        # width and byte order, nested lists of Python ints, binary32; custom weights as integers too
+        counts = [[0.0, 12.0], [1.0, 52.0], [2.0, 93.0], [5.0, 212.0], [10.0, 410.0], [10.0, 415.0]]
+        for i, form in enumerate(TABLE_INT_FORMS):
+            w = (BUILTIN + ["Custom"])[i % 8]
+            yield {"kind": "fit", "rows": counts[:6 if form[1:] != "i1" else 3], "weighting": w,
+                   "cw": [1.0, 2.0, 2.0, 4.0, 1.0, 3.0][:6 if form[1:] != "i1" else 3] if w == "Custom" else None,
+                   "perms": [], "tables": [form, "int-list", "f4", TABLE_FORMS[i % len(TABLE_FORMS)]]}
+        # data arrays of every image dtype, both byte orders: raw counts on a line of 40 counts per unit over a blank of
+        # 12, under the identity, the line given as Python floats / np.float64, and the line fitted from standards
+        levels = [0.0, 0.25, 0.5, 1.25, 2.5, 5.0]
+        std = {"rows": [[x, 12.0 + 40.0 * x] for x in levels], "weighting": "1/x", "cw": None}
+        k = 0
+        for base in DATA_DTYPES:
+            for order in ("<>" if np.dtype(base).itemsize > 1 else "|"):
+                counts = [12, 17, 27, 40, 0, 127, int(np.iinfo(base).max), int(np.iinfo(base).min)] if base[0] in "iu" \
+                    else [12.0, 17.0, 27.0, 40.0, None, 0.5, -3.0, 2.0 ** 24 + 2.0]
+                for mode in ("identity", "float", "np.float64", "fitted", "few"):
+                    shape = [[8], [2, 4], [4, 2, 1], [8], [1, 8]][k % 5]
+                    lay = LAYOUTS[:8][k % 8]
+                    k += 1
+                    c = {"kind": "calibrate", "shape": shape, "dtype": order + base, "layout": lay, "data": counts}
+                    if mode == "identity":
+                        yield {**c, "mode": "identity"}
+                    elif mode == "fitted":
+                        yield {**c, "mode": "fitted", "fit": std}
+                    elif mode == "few":
+                        yield {**c, "mode": "few", "fit": {"rows": [[1.0, 52.0], [None, 3.0]], "weighting": "1/x", "cw": None}}
+                    else:
+                        yield {**c, "mode": "line", "g": 40.0, "c": 12.0, "ptype": mode}
+                yield {"kind": "calibrate", "mode": "line", "g": 40.0, "c": 12.0, "shape": [], "dtype": order + base,
+                       "layout": ["c", "scalar", "strided", "field", "pyscalar"][(k // 5) % 5], "data": counts[1:2]}
         # sessions on one object
         few = {"op": "refit", "rows": [[1.0, 2.0], [2.0, None]], "weighting": "1/x", "cw": None}
         fit = {"op": "refit", "rows": base, "weighting": "1/x", "cw": None}
         cal = {"op": "calibrate"}
+        for j, dtype in enumerate(["<u2", ">i4", "<f4", ">u8", "|u1", "<i8"]):
+            yield {"kind": "session", "shape": [2, 2], "dtype": dtype, "layout": LAYOUTS[j], "data": [12, 17, 27, 40],
+                   "start": [None, {"g": 40.0, "c": 12.0}][j % 2], "steps": [
+                       cal, {"op": "refit", **std}, cal, few, cal, {"op": "assign", "g": 40.0, "c": 12.0}, cal, cal,
+                       {"op": "assign", "g": 1.0, "c": 0.0}, cal]}
         for shape in ([], [3]):
             conc = [0.0, 2.0, None][:int(np.prod(shape)) if shape else 1]
             for start in (None, {"g": 2.0, "c": 3.0}, {"g": 1.0 + 1e-7, "c": 1e-9}):
@@ -761,6 +1335,8 @@ class C06(Prop):
             c = self.gen_fit(rng, "thorough")
             if any(is_nan_row(r) for r in c["rows"]):
                 yield c
+        for i in range(300):
+            yield self.gen_cal_data(rng, "thorough")
 
     # ------------------------------------------------------------------ evaluation
     def evaluate(self, case, ctx):
@@ -799,6 +1375,11 @@ class C06(Prop):
         impl, model, spec = [], [], []
         spec_ok = model_ok = True
         variants.append(("refit", rows, cw))
+        table_feats = set()
+        for form in case.get("tables", []):
+            t = table_as(rows, cw, form) if isinstance(form, str) else None
+            if t is not None:
+                variants.append(("table", t, form))
         hist_feats, nhist = set(), 0
         n_finite_required = 0
         for h in case.get("hists", []):
@@ -813,11 +1394,22 @@ class C06(Prop):
                     continue
                 nhist += 1
                 hist_feats |= history_features(vrows[0], vrows[1], rows, weighting, cw)
+            elif name == "table":
+                call = CALL_FORMS[(len(impl) + len(rows)) % len(CALL_FORMS)]
+                got = run_fit(rows, weighting, cw, table=vrows, call=call)
+                table_feats.add("call:" + call)
+                d = parse_dtype(vcw)
+                d = d if d is not None and d.kind in "iu" else None
+                table_feats.add("table:" + (vcw if d is None else "int-array:" + d.base.str[1:]))
+                if d is not None and d.str[0] == ">":
+                    table_feats.add("table:int-array:big-endian")
+                if d is not None and cw is not None and np.asarray(vrows[1]).dtype.kind in "iu":
+                    table_feats.add("table:int-weights")
             else:
                 got = run_fit(vrows, weighting, vcw, prior=(name == "refit"))
             if name == "clean":
                 rep = base
-            elif name in ("given", "refit", "hist"):  # the current points and weighting are the case's own
+            elif name in ("given", "refit", "hist", "table"):  # the current points and weighting are the case's own
                 if given_rep is None:
                     given_rep = drv_fit(ctx, rows, weighting, cw)
                 rep = given_rep
@@ -842,7 +1434,7 @@ class C06(Prop):
             if rep["weights_finite_required"]:
                 if not rep["spec_weights_finite"]:
                     raise core.InternalError("driver: specification weights not finite under hasNonzero (contradicts weights_finite_of_nonzero)")
-                spec_ok = spec_ok and weights_finite_where_finite(rows if name == "hist" else vrows, weighting, got["weights"])
+                spec_ok = spec_ok and weights_finite_where_finite(rows if name in ("hist", "table") else vrows, weighting, got["weights"])
                 n_finite_required += 1
             if not fitted:
                 spec.append({"gradient": 1.0, "intercept": 0.0, "rsq": None, "error": None})
@@ -859,12 +1451,15 @@ class C06(Prop):
                 # raw sums about the textbook line; equal by `err2_is_residual_variance`)
                 scale = max([abs(y) for _, y in clean_rows] + [0.0]) + abs(mv["intercept"]) \
                     + abs(mv["gradient"]) * max([abs(x) for x, _ in clean_rows] + [0.0])
-                m_ok = abs(got["error"] - mv["error"]) <= 1e-7 * mv["error"] + 1e-9 * scale \
-                    and abs(got["error"] - spec_fit["error"]) <= 1e-7 * spec_fit["error"] + 1e-9 * scale
+                # the fitted values (hence the residuals) of a least-squares problem solved in floating point are good
+                # to eps * kappa relative to the data, kappa = 2/sqrt(rho)
+                etol = max(1e-9, 64 * 2.0 ** -52 * 2.0 / math.sqrt(rho))
+                m_ok = abs(got["error"] - mv["error"]) <= 1e-7 * mv["error"] + etol * scale \
+                    and abs(got["error"] - spec_fit["error"]) <= 1e-7 * spec_fit["error"] + etol * scale
             elif m_ok:
                 m_ok = False
             model_ok = model_ok and m_ok
-        feats = self.fit_features(case, clean_rows, fitted, hyp, check_rsq, hist_feats)
+        feats = self.fit_features(case, clean_rows, fitted, hyp, check_rsq, hist_feats | table_feats)
         if dominant:  # always counted in the evidence; only r² is skipped, gradient/intercept are still compared
             feats = set(feats) | {"dominant-weight(1-Σw²/(Σw)²<1e-12: r2 not compared)"}
         if feats and fitted and hyp:
@@ -934,18 +1529,25 @@ class C06(Prop):
                 f.add("constant-y(r2 not compared)")
             if len(clean) == 2:
                 f.add("two-usable-rows")
+            if len(clean) >= 20:
+                f.add("long-table(>=20 usable rows)")
+            lv = sorted(set(x for x, _ in clean))
+            if len(lv) == 2 and len(clean) > 2:
+                f.add("two-levels-with-replicates")
+            mx = max(abs(x) for x in lv)
+            if mx > 0 and (lv[-1] - lv[0]) <= 1e-5 * mx:
+                f.add("level-spread<=1e-5-of-mean")
+            if mx <= 1e-6 or mx >= 1e6:
+                f.add("ladder-scale:" + ("<=1e-6" if mx <= 1e-6 else ">=1e6"))
+            if ys and (max(ys) >= 1e12 or max(ys) <= 1e-6):
+                f.add("response-scale:" + (">=1e12" if max(ys) >= 1e12 else "<=1e-6"))
         return f if nontrivial else []
 
-    def eval_cal(self, case, ctx):
+    def build_cal(self, case, ctx, feats):
+        """the Calibration object of a calibrate case -> (cal, g, c, None) or (None, None, None, outcome)"""
         from pewlib.calibration import Calibration
 
-        shape, mode = case["shape"], case["mode"]
-        conc = np.array([nan(v) for v in case["conc"]], dtype=np.float64).reshape(shape)
-        feats = {f"cal:{mode}", f"ndim{len(shape)}"}
-        if conc.size == 0:
-            feats.add("empty-array")
-        if np.isnan(conc).any():
-            feats.add("nan-data")
+        mode = case["mode"]
         with warnings.catch_warnings():
             warnings.simplefilter("ignore")
             if mode == "line":
@@ -965,18 +1567,84 @@ class C06(Prop):
                         cal = Calibration.from_points(pts, weights=wts)
                 except Exception:
                     # the fit itself failed: judge it as a fit case (hypothesis logic lives there)
-                    return self.eval_fit({"kind": "fit", "rows": f["rows"], "weighting": f["weighting"], "cw": f["cw"],
-                                          "perms": []}, ctx)
+                    return None, None, None, self.eval_fit({"kind": "fit", "rows": f["rows"], "weighting": f["weighting"],
+                                                            "cw": f["cw"], "perms": []}, ctx)
         g, c = float(cal.gradient), float(cal.intercept)
         if not (math.isfinite(g) and math.isfinite(c)) or g == 0.0:
-            return outcome({}, {}, {}, hyp=False, features=[], note="degenerate fitted calibration (outside hypothesis)")
+            return None, None, None, outcome({}, {}, {}, hyp=False, features=[],
+                                             note="degenerate fitted calibration (outside hypothesis)")
         if mode in ("identity", "few"):
             feats.add("identity-calibration")
             if not (g == 1.0 and c == 0.0):
-                return outcome({"gradient": g, "intercept": c}, {"gradient": 1.0, "intercept": 0.0},
-                               {"gradient": 1.0, "intercept": 0.0}, features=feats)
+                return None, None, None, outcome({"gradient": g, "intercept": c}, {"gradient": 1.0, "intercept": 0.0},
+                                                 {"gradient": 1.0, "intercept": 0.0}, features=feats)
         if g == 1.0 and c == 0.0:
             feats.add("identity-shortcut")
+        return cal, g, c, None
+
+    def eval_cal_data(self, case, ctx):
+        """calibrate on a data array of any image dtype / byte order / memory layout (see `build_data`)"""
+        built = build_data(case)
+        if built is None or case.get("mode") not in ("line", "identity", "fitted", "few"):
+            return outcome({}, {}, {}, hyp=False, features=[], note="malformed data case (not judged)")
+        dt, arg, exact = built
+        shape, mode, layout = case["shape"], case["mode"], case.get("layout", "c")
+        feats = {f"cal:{mode}"} | data_features(dt, layout, shape, exact)
+        cal, g, c, early = self.build_cal(case, ctx, feats)
+        if early is not None:
+            return early
+        identity = g == 1.0 and c == 0.0
+        int_line = isinstance(cal.gradient, int) or isinstance(cal.intercept, int)
+        if any(isinstance(v, float) and math.isinf(v) for v in exact):
+            return outcome({}, {}, {}, hyp=False, features=[], note="infinite data (outside the quantifier): not judged")
+        rep = ctx.driver.call("c06.calibrate_data", gradient=core.rat(g), intercept=core.rat(c),
+                              responses=[None if (isinstance(v, float) and v != v) else core.rat(v) for v in exact])
+        if not rep["on_line"] or rep["identity"] != identity:
+            raise core.InternalError("driver: the specified concentrations do not lie on the line (contradicts calibrate_eq_iff_on_line)")
+        model = {"shape": list(shape), "data": [qf(v) for v in rep["model"]]}
+        spec = {"shape": list(shape), "data": [qf(v) for v in rep["spec"]]}
+        if not identity:
+            big = [abs(v) for v in [g, c, c / g] + [x for x in exact if x == x] + [x for x in spec["data"] if x is not None]]
+            if dt.kind == "f" and dt.itemsize == 4 and (max(big) > F4_MAX or abs(g) < 1.0 / F4_MAX):
+                return outcome({}, {}, {}, undetermined=True, features=feats | {"data:binary32-range-not-judged"},
+                               note="binary32 arithmetic may overflow / underflow: not judged")
+            if int_line and dt.kind in "iu":
+                # a line given as Python ints on integer data: NumPy subtracts in the data's own integer type (wraps
+                # around, or refuses an intercept outside the dtype's range).  Lines from a fit are np.float64 and the
+                # constructor's parameters are typed float: outside the quantifier, recorded only (notes/EC06.md)
+                info = np.iinfo(dt)
+                ci = int(cal.intercept)
+                if not (info.min <= ci <= info.max) or any(not (info.min <= v - ci <= info.max) for v in exact):
+                    return outcome({}, {}, {}, hyp=False,
+                                   features=feats | {"int-line-on-int-data:wraps-in-the-data-dtype(recorded only)"},
+                                   note="Python-int line on integer data outside the dtype's range: not judged")
+        try:
+            with np.errstate(all="ignore"), warnings.catch_warnings():
+                warnings.simplefilter("ignore")
+                out = cal.calibrate(arg)
+            impl = observe_data(exact, out)
+        except Exception as e:
+            impl = {"raises": type(e).__name__, "msg": str(e)[:200]}
+        if "raises" in impl:
+            return outcome(impl, model, spec, spec_ok=False, model_ok=False, features=feats)
+        m_ok, s_ok = judge_data(impl, model, spec, shape, g, c, dt, identity)
+        if impl.get("dtype") is not None:
+            feats.add("result-dtype:" + ("same-as-data" if impl["dtype"] == dt.str else impl["dtype"][1:]))
+        return outcome(impl, model, spec, spec_ok=s_ok, model_ok=m_ok, features=feats)
+
+    def eval_cal(self, case, ctx):
+        if "dtype" in case or "data" in case:
+            return self.eval_cal_data(case, ctx)
+        shape, mode = case["shape"], case["mode"]
+        conc = np.array([nan(v) for v in case["conc"]], dtype=np.float64).reshape(shape)
+        feats = {f"cal:{mode}", f"ndim{len(shape)}"}
+        if conc.size == 0:
+            feats.add("empty-array")
+        if np.isnan(conc).any():
+            feats.add("nan-data")
+        cal, g, c, early = self.build_cal(case, ctx, feats)
+        if early is not None:
+            return early
         near = line_class(g, c) == "near-identity"
         if near:
             feats |= {"near-identity", "near-identity:|g-1|" + near_bin(g - 1.0), "near-identity:|c|" + near_bin(c),
@@ -1017,13 +1685,28 @@ class C06(Prop):
         from pewlib.calibration import Calibration
 
         shape, start = case["shape"], case["start"]
-        conc = np.array([nan(v) for v in case["conc"]], dtype=np.float64).reshape(shape)
-        concs = [orat(float(v)) for v in conc.ravel()]
+        if "data" in case or "dtype" in case:
+            conc, concs = None, None
+        else:
+            conc = np.array([nan(v) for v in case["conc"]], dtype=np.float64).reshape(shape)
+            concs = [orat(float(v)) for v in conc.ravel()]
         trivial = outcome({}, {}, {}, hyp=False, features=[], note="session not judged (degenerate line / malformed)")
         ok_num = lambda v: isinstance(v, (int, float)) and math.isfinite(v)
         if start is not None and not (ok_num(start["g"]) and ok_num(start["c"]) and start["g"] != 0):
             return trivial
         impl_steps, drv_steps, resps, via = [], [], [], []
+        # a session on a data array of some image dtype: the same image is calibrated at every call (the calibration
+        # changes, the image does not); specified by the formula on the image's own elements (see `build_data`)
+        data_mode = "data" in case or "dtype" in case
+        dt = exact = None
+        if data_mode:
+            built = build_data(case)
+            if built is None or any(isinstance(v, float) and math.isinf(v) for v in built[2]):
+                return trivial
+            dt, _, exact = built
+            exact_r = [None if (isinstance(v, float) and v != v) else core.rat(v) for v in exact]
+            if start is not None:
+                start = {"g": float(start["g"]), "c": float(start["c"])}
         with warnings.catch_warnings():
             warnings.simplefilter("ignore")
             cal = Calibration() if start is None else Calibration(intercept=start["c"], gradient=start["g"])
@@ -1032,7 +1715,7 @@ class C06(Prop):
                 if st["op"] == "assign":
                     if not (ok_num(st["g"]) and ok_num(st["c"])) or st["g"] == 0:
                         break
-                    cal.gradient, cal.intercept = st["g"], st["c"]
+                    cal.gradient, cal.intercept = (float(st["g"]), float(st["c"])) if data_mode else (st["g"], st["c"])
                     how = "assign"
                     drv_steps.append({"op": "assign", "g": core.rat(st["g"]), "c": core.rat(st["c"])})
                     impl_steps.append({"line": [float(cal.gradient), float(cal.intercept)]})
@@ -1058,6 +1741,23 @@ class C06(Prop):
                     impl_steps.append({"line": None if obs is None else [float(g), float(c)]})
                     if obs is None or float(g) == 0.0:  # not a usable line (inside the hypothesis the fit cases report it)
                         break
+                elif st["op"] == "calibrate" and data_mode:
+                    g, c = float(cal.gradient), float(cal.intercept)
+                    if dt.kind == "f" and dt.itemsize == 4 and not (g == 1.0 and c == 0.0):
+                        mags = [abs(g), abs(c), abs(c / g)] + [abs(v) for v in exact if v == v] + \
+                               [abs((v - c) / g) for v in exact if v == v]
+                        if max(mags) > F4_MAX or abs(g) < 1.0 / F4_MAX:
+                            break  # binary32 arithmetic may overflow: what was judged before stays judged
+                    try:
+                        with np.errstate(all="ignore"):
+                            out = cal.calibrate(build_data(case)[1])
+                        impl_steps.append(observe_data(exact, out))
+                    except Exception as e:
+                        impl_steps.append({"raises": type(e).__name__, "msg": str(e)[:200]})
+                    drv_steps.append({"op": "calibrate", "responses": exact_r, "concentrations": None})
+                    resps.append(None)
+                    via.append(how)
+                    how = "same-line"
                 elif st["op"] == "calibrate":
                     g, c = float(cal.gradient), float(cal.intercept)
                     with np.errstate(all="ignore"):
@@ -1083,6 +1783,8 @@ class C06(Prop):
         model_steps, spec_steps = [], []
         m_ok = s_ok = True
         feats, k, prev = {"session", f"ndim{len(shape)}"}, 0, None
+        if data_mode:
+            feats |= {"session:data-array"} | data_features(dt, case.get("layout", "c"), shape, exact)
         for got, r in zip(impl_steps, rep):
             g, c = unrat(r["gradient"]), unrat(r["intercept"])
             if r["op"] != "calibrate":
@@ -1104,6 +1806,9 @@ class C06(Prop):
             spec_steps.append(spec)
             if "raises" in got:
                 m_ok = s_ok = False
+            elif data_mode:
+                a, b = judge_data(got, model, spec, shape, float(g), float(c), dt, g == 1 and c == 0)
+                m_ok, s_ok = m_ok and a, s_ok and b
             else:
                 a, b = judge_calibrate(got, model, spec, shape, resps[k], float(g), float(c))
                 m_ok, s_ok = m_ok and a, s_ok and b
@@ -1125,6 +1830,15 @@ class C06(Prop):
                     yield {**case, "steps": steps[:k] + steps[k + 1:]}
                 if case["start"] is not None:
                     yield {**case, "start": None}
+            if "data" in case and isinstance(case.get("shape"), list):
+                if len(case["shape"]) > 1 or (case["shape"] and case["shape"][0] > 1):
+                    for i in range(len(case["data"])):
+                        yield {**case, "shape": [1], "data": case["data"][i:i + 1]}
+                if case.get("layout", "c") != "c":
+                    yield {**case, "layout": "c"}
+                if isinstance(case.get("dtype"), str) and case["dtype"][0] == ">":
+                    yield {**case, "dtype": "<" + case["dtype"][1:]}
+                return
             if len(case["shape"]) > 1 or (case["shape"] and case["shape"][0] > 1):
                 for i in range(len(case["conc"])):
                     yield {**case, "shape": [1], "conc": case["conc"][i:i + 1]}
